@@ -159,6 +159,11 @@ def gen_cases(rng, tier):
         h_p, h_n = rng.choice([(12, 20), (20, 15), (16, 30)])
         cases.append(_case(rng, h_p, h_n, ["replacement", "single_pass"][j % 2], None, ep=rng.choice([40, 60, 100]) * h_p,
                            en=rng.choice([30, 50]) * h_n, distinct=True, stat=6000 if tier == "quick" else 12000))
+    # H3. tiny classes under explicit single-pass sampling, thousands of seeds: both classes draw all-zero multiplicities in
+    # the same sample about once in 256 (2 + 2) — every sample must still hold a scored positive and a scored negative
+    for j in range({"quick": 2, "thorough": 6, "search": 4}[tier]):
+        cases.append(_case(rng, 2, rng.choice([2, 2, 3]), "single_pass", [None, "by_label"][j % 2], ep=rng.choice([0, 1]),
+                           en=rng.choice([0, 2]), distinct=True, stat=4000 if tier == "quick" else 12000, tiny=True))
     # I. call histories: the object has produced samples under other configurations before the observed call
     def other_cfg(big):
         return {"method": rng.choice(["dynamic", "replacement"] + (["single_pass"] if big else [])),
@@ -281,6 +286,7 @@ def run_impl(case):
     if case.get("stat"):
         k = case["stat"]
         tot_p = tot_n = tot_ep = tot_en = 0
+        empty = []       # seeds at which the sample lacks a scored sample of a class the source has
         mp = {float(v): 0 for v in pos}
         mn = {float(v): 0 for v in neg}
         for j in range(k):
@@ -288,6 +294,8 @@ def run_impl(case):
             b = s.bootstrap_sample(cfg)
             tot_p += len(b.pos)
             tot_n += len(b.neg)
+            if (len(pos) and not len(b.pos)) or (len(neg) and not len(b.neg)):
+                empty.append([(case["seed"] + j) % 2**32, len(b.pos), len(b.neg)])
             tot_ep += int(b.nb_easy_pos)
             tot_en += int(b.nb_easy_neg)
             if len(mp) == len(pos) and len(mn) == len(neg):
@@ -295,7 +303,7 @@ def run_impl(case):
                     mp[float(v)] += 1
                 for v in b.neg:
                     mn[float(v)] += 1
-        return {"stat": k, "sum_pos": tot_p, "sum_neg": tot_n, "sum_ep": tot_ep, "sum_en": tot_en,
+        return {"empty": empty[:5], "stat": k, "sum_pos": tot_p, "sum_neg": tot_n, "sum_ep": tot_ep, "sum_en": tot_en,
                 "mult_pos": list(mp.values()) if len(mp) == len(pos) else None,
                 "mult_neg": list(mn.values()) if len(mn) == len(neg) else None}
     for w in case.get("warm") or []:
@@ -410,6 +418,11 @@ def _stat_oracle(case, r):
     fails = []
     k = r["stat"]
     m = resolved_method(case)
+    for seed_, np_, nn_ in r.get("empty") or []:
+        fails.append(("C11/stat-empty-class", f"{m}, stratified_sampling={case['strat']}: under np.random.seed({seed_}) the sample has "
+                      f"{np_} scored positives and {nn_} scored negatives; the source has {len(case['pos'])} and {len(case['neg'])}"))
+    if case.get("tiny"):
+        return fails      # sizes this small sit inside the at-least-one correction: no expected-size claim
     if case["strat"] is None:
         # hard stratum size: Binomial(N, h/N)-like (variance <= h) and, for single pass, the sum of the multiplicities
         # (variance <= h again); the corrections add less than exp(-h) per sample
